@@ -19,11 +19,8 @@ template <typename Range, typename Index>
     requires(RandomAccessRange<Range>)
 constexpr auto index(Range&& rng, Index&& i) noexcept -> decltype(auto)
 {
-    using etl::begin;
-    using etl::end;
-
-    TETL_PRECONDITION(static_cast<etl::size_t>(i) < static_cast<etl::size_t>(end(rng) - begin(rng)));
-    return begin(etl::forward<Range>(rng))[etl::forward<Index>(i)];
+    TETL_PRECONDITION(static_cast<etl::size_t>(i) < static_cast<etl::size_t>(etl::end(rng) - etl::begin(rng)));
+    return etl::begin(etl::forward<Range>(rng))[etl::forward<Index>(i)];
 }
 } // namespace etl::detail
 
